@@ -260,6 +260,10 @@ func NewWorld(s *Sim, opt WorldOpt) *World {
 	w.Links = NewLinks(s)
 	s.Fate = w.Links.Fate
 	s.OnEmit = w.onEmit
+	s.IsPost = func(p *OutPkt) bool {
+		ep := w.byFlow[p.Src.addrStr+">"+p.Dst]
+		return ep != nil && ep.CloseInvoked
+	}
 	if w.Cipher == "" {
 		w.Cipher = "null"
 	}
